@@ -12,6 +12,21 @@ use std::sync::Once;
 
 thread_local! {
     static LAST_PANIC: RefCell<Option<String>> = RefCell::new(None);
+    /// true while the thread is inside a guarded call into the library under test
+    static GUARDED: std::cell::Cell<bool> = std::cell::Cell::new(false);
+}
+
+/// Run `f` with panics recorded instead of printed (the call is wrapped in catch_unwind by the caller).
+pub fn guarded<T>(f: impl FnOnce() -> T) -> T {
+    GUARDED.with(|g| g.set(true));
+    struct Reset;
+    impl Drop for Reset {
+        fn drop(&mut self) {
+            GUARDED.with(|g| g.set(false));
+        }
+    }
+    let _r = Reset;
+    f()
 }
 
 static HOOK: Once = Once::new();
@@ -30,6 +45,10 @@ pub fn install_hook() {
                 .location()
                 .map(|l| format!("{}:{}", l.file(), l.line()))
                 .unwrap_or_default();
+            if !GUARDED.with(|g| g.get()) {
+                // a panic of the harness itself: make it visible (the process exits with 101 -> exit 2)
+                eprintln!("HARNESS PANIC: {} @ {}", msg, loc);
+            }
             LAST_PANIC.with(|p| *p.borrow_mut() = Some(format!("{} @ {}", msg, loc)));
         }));
     });
@@ -107,7 +126,7 @@ pub fn hex(b: &[u8], max: usize) -> String {
 pub fn build(src: &str) -> Outcome {
     install_hook();
     LAST_PANIC.with(|p| *p.borrow_mut() = None);
-    match catch_unwind(AssertUnwindSafe(|| build_str(src))) {
+    match catch_unwind(AssertUnwindSafe(|| guarded(|| build_str(src)))) {
         Ok(Ok(b)) => Outcome::Ok(b),
         Ok(Err(e)) => Outcome::Err(e.to_string()),
         Err(_) => Outcome::Panic(
@@ -121,7 +140,7 @@ pub fn build(src: &str) -> Outcome {
 pub fn build_file(path: PathBuf, paths: BTreeSet<PathBuf>) -> Outcome {
     install_hook();
     LAST_PANIC.with(|p| *p.borrow_mut() = None);
-    match catch_unwind(AssertUnwindSafe(|| lib_build_file(path, paths))) {
+    match catch_unwind(AssertUnwindSafe(|| guarded(|| lib_build_file(path, paths)))) {
         Ok(Ok(b)) => Outcome::Ok(b),
         Ok(Err(e)) => Outcome::Err(e.to_string()),
         Err(_) => Outcome::Panic(
